@@ -15,7 +15,7 @@ ID = "C03"
 LEVEL = "exploration"
 RULE = (
     "Hypothesis draws files with 2-6 Decay blocks over real non-self-conjugate mothers and aliased mothers (Alias MyX X / "
-    "Alias MyXbar Xbar with ChargeConj in either orientation), 0-3 CopyDecay, 1-4 CDecay (each name at most once; subjects "
+    "Alias MyXbar Xbar with ChargeConj in either orientation; also an alias paired with a standard name), 0-3 CopyDecay, 1-4 CDecay (each name at most once; subjects "
     "with a conjugate source table, without one, or shadowed by their own Decay block; sources that are copies), statements "
     "in any order, daughters from paired/self-conjugate/unknown real names, aliases with and without ChargeConj and unknown "
     "labels; both values of include_ccdecays. Oracle: reference interpreter (ChargeConj direct, then reverse, then PDG-ID "
@@ -52,6 +52,19 @@ def c03_file(draw):
             stmts.append({"k": "chargeconj", "a": b, "b": a})
         # orient == 2: alias pair without ChargeConj -> conjugates are unknown, marked as such
         alias_pairs.append((a, b, orient != 2))
+    # an alias paired with a *standard* name: `Alias MyK+ K+` / `ChargeConj MyK+ K-` (either orientation); the statement
+    # then also governs the conjugate of the standard name K- (read in the other direction)
+    used_real = set(reals) | {N.ref_conj(r) for r in reals}
+    for i in range(draw(st.sampled_from((0, 0, 1, 2)))):
+        base = draw(st.sampled_from(paired))
+        cb = N.ref_conj(base)
+        if base in used_real or cb in used_real:
+            continue
+        used_real |= {base, cb}
+        a = f"Mix{i}_{'x'}+"
+        stmts.append({"k": "alias", "a": a, "p": base})
+        stmts.append({"k": "chargeconj", "a": a, "b": cb} if draw(st.booleans()) else {"k": "chargeconj", "a": cb, "b": a})
+        alias_pairs.append((a, cb, True))
     lonely = []
     for i in range(draw(st.integers(0, 2))):
         nm = f"Lone{i}~x"
